@@ -15,7 +15,7 @@ constexpr u32 H_ADDR[3] = {0x0040, 0x0070, 0x00A0};
 constexpr u32 MAIN = 0x0100;
 
 struct Ins {
-    enum Kind : u8 { Plain, Eint, Dint, Mod3, Rep, Store, Br, Reti, Retic };
+    enum Kind : u8 { Plain, Eint, Dint, Mod3, Rep, Store, Br, Reti, Retic, St0, St2 };
     Kind kind = Plain;
     u8 len = 1;
     u32 a = 0; // Mod3: value; Rep: count; Br: target
@@ -173,6 +173,14 @@ struct IcuCoreModel {
             break;
         case Ins::Mod3:
             set_mod3((u16)ins.a);
+            break;
+        case Ins::St0: // st0: bit 1 ie, bit 2 im0, bit 3 im1 (the pending bits are not part of st0)
+            ie = (ins.a >> 1) & 1;
+            im[0] = (ins.a >> 2) & 1;
+            im[1] = (ins.a >> 3) & 1;
+            break;
+        case Ins::St2: // st2: bit 6 im2; its ip0-2 bits (13..15) are read-only
+            im[2] = (ins.a >> 6) & 1;
             break;
         case Ins::Rep:
             rep_on = true;
@@ -353,7 +361,19 @@ public:
                 continue;
             if (p.a.at > 0x02C0 || ++gadgets > 60)
                 break;
-            switch (s.arg(0) % 10) {
+            switch (s.arg(0) % 12) {
+            case 10: { // mov imm, st0 — another view of ie, im0, im1
+                u16 v = (u16)(s.arg(1) & 0x000E);
+                p.put(Ins::St0, 2, v);
+                p.a.mov_imm(op::ST0, v);
+                break;
+            }
+            case 11: { // mov imm, st2 — another view of im2; writing its pending bits must have no effect
+                u16 v = (u16)((s.arg(1) & 0x0040) | (s.arg(2) & 0xE000));
+                p.put(Ins::St2, 2, v);
+                p.a.mov_imm(op::ST2, v);
+                break;
+            }
             case 0:
                 p.plain1(op::NOP);
                 break;
@@ -468,7 +488,7 @@ public:
         p.set_knob("ackbits", r.chance(1, 2) ? 0xFFFF : (s64)(r.next() & 0xFFFF));
         int ng = (int)r.range(2, 26);
         for (int i = 0; i < ng; ++i)
-            p.add("g", {(s64)r.below(10), (s64)(r.next() & 0xFFFF), (s64)(r.chance(1, 2) ? (1u << r.below(16)) : (r.next() & 0xFFFF))});
+            p.add("g", {(s64)r.below(12), (s64)(r.next() & 0xFFFF), (s64)(r.chance(1, 2) ? (1u << r.below(16)) : (r.next() & 0xFFFF))});
         int nops = (int)r.range(3, tier.thorough ? 60 : 30);
         for (int i = 0; i < nops; ++i) {
             int x = (int)r.below(20);
